@@ -176,7 +176,8 @@ def exprDone (c : Char) (s : StrScan) : Bool := buildOf c s == 0 && !(curExprOf 
 /-- body of the `for c in it` loop of the `'"'` arm for a character that does not end the literal -/
 def scanStep (c : Char) (s : StrScan) : StrScan :=
   if s.backSlash then
-    { s with string := c :: s.string, consumed := s.consumed + 1, backSlash := c = '\\' }
+    -- the escaped character still belongs to an interpolated expression that is being collected
+    { s with string := c :: s.string, consumed := s.consumed + 1, backSlash := c = '\\', curExpr := curExprOf c s }
   else if exprDone c s then
     -- `cur_expr[0..cur_expr.len() - 1]`: byte slicing, panics unless the last char is 1 byte
     { s with string := c :: s.string, consumed := s.consumed + 1, backSlash := c = '\\',
